@@ -3,7 +3,7 @@
    accounting of io.c, one stripe of scrub).  Lemmas: coq/Fault/FaultProofs.v.  Only statements here. *)
 From Coq Require Import NArith ZArith List Bool Arith.
 From Snap.Array Require Import ArrayDefs SyncModel SyncProofsDefs SyncProofsStripe.
-From Snap.Fault Require Import FaultModel FaultProofs.
+From Snap.Fault Require Import FaultModel FaultProofs FaultWitness.
 Import ListNotations.
 
 (* sync_loop_w without write faults is the sync loop of C06 (the model the C06 check replays on the binary) *)
